@@ -115,6 +115,7 @@ func c12PacketConn(c *vf.Case) {
 		seq      uint32
 	}
 	var senders []*sender
+	var reusedAddr *net.UDPAddr
 	for i := 0; i < nsend; i++ {
 		fd, p, err := rawpeer.UDP4([4]byte{127, 0, 0, 1})
 		if err != nil {
@@ -261,11 +262,20 @@ func c12PacketConn(c *vf.Case) {
 			}
 		}
 		// writes: each emits exactly one datagram with the caller's bytes to the destination
+		if reusedAddr == nil {
+			reusedAddr = &net.UDPAddr{IP: net.IPv4(127, 0, 0, 1)}
+		}
 		for k := 0; k < r.Intn(4) && !c.Failed(); k++ {
 			s := senders[r.Intn(len(senders))]
 			n := sizes[r.Intn(len(sizes))]
 			data := c12Stamp(7, uint32(round*10+k), n, gen)
 			to := &net.UDPAddr{IP: net.IPv4(127, 0, 0, 1), Port: s.port}
+			if r.Bool() {
+				// allocation-averse callers keep one address value and update it in place between writes
+				reusedAddr.Port = s.port
+				to = reusedAddr
+				c.Count("writes_with_an_address_value_updated_in_place", 1)
+			}
 			calls := 0
 			var werr error
 			if r.Bool() {
@@ -297,6 +307,12 @@ func c12PacketConn(c *vf.Case) {
 				rawpeer.WaitReadable(s.fd, 2)
 			}
 			if !ok {
+				for _, o := range senders {
+					if on, _, oerr := syscall.Recvfrom(o.fd, rb, 0); oerr == nil && o != s {
+						c.Failf("datagram-written-to-wrong-destination", "a %d-byte write addressed to port %d arrived (%d bytes) at port %d", n, s.port, on, o.port)
+						return
+					}
+				}
 				c.Failf("datagram-written-not-received", "a %d-byte write never reached the destination socket", n)
 				return
 			}
